@@ -25,17 +25,6 @@ Definition REJECT : string := "err:reject".
 Definition reject_as (model_is_err : bool) (model_obs : string) : string :=
   if model_is_err then model_obs else REJECT.
 
-Definition known_dq_past_len (p : slice) (index : Z) (buffer : slice) : bool :=
-  match be16_at p 4 with
-  | Ok qd =>
-      (qd =? 1) && negb (Z.of_nat (len p) <? index + 6)%Z &&
-      match decodeNameZ p index (buf_of buffer) with
-      | Ok r => Nat.ltb (len p) (snd (fst r) + 4)
-      | _ => false
-      end
-  | _ => false
-  end.
-
 Definition spec_dq (p : bytes) (index : Z) (mobs : string) (merr : bool) : string :=
   match u16_at p 4 with
   | Some qd =>
@@ -69,8 +58,7 @@ Definition run_dq (p spare : bytes) (index : Z) (pre : bytes) (n : nat) : string
   let buffer := mk_buffer pre n in
   let r := decodeQuestion ps index buffer in
   let mobs := show_res show_question r in
-  out3 mobs (spec_dq p index mobs (is_err r))
-       (if known_dq_past_len ps index buffer then "dq-past-len" else "-").
+  out3 mobs (spec_dq p index mobs (is_err r)) "-".
 
 (* ---- entry dumps: sections 4 / 6 / c / p, each sorted by key ---- *)
 Fixpoint bytes_ltb (a b : bytes) : bool :=
@@ -137,28 +125,6 @@ Definition show_ref_answers (x : option (list ref_rr * list learned * nat)) : st
   | Some (_, ls, e) => show_learned ls ++ dec_of_nat e
   end.
 
-Definition ptr_not_v4 (rrs : list ref_rr) : bool :=
-  existsb (fun r => (rr_type r =? 12) && match reverse_v4 (rr_owner r) with None => true | Some _ => false end) rrs.
-
-Definition nocap (b : slice) : slice := mkSlice (view b) (len b).
-
-Definition rrs_eqb (a b : rrs_out) : bool :=
-  String.eqb (show_rrs_res (fst a) ++ show_entry_dump (snd a)) (show_rrs_res (fst b) ++ show_entry_dump (snd b)).
-
-(* the CNAME owner was read after the CNAME target was decoded into the same buffer *)
-Definition known_cname_alias (p : slice) (off : Z) (buffer : slice) (e : dns_entry) : bool :=
-  negb (rrs_eqb (decodeAnswers p off buffer e) (decodeAnswers p off (nocap buffer) e)).
-
-Definition is_panic_r {A} (r : res A) : bool := match r with Panic => true | _ => false end.
-
-Definition rrs_key (p : slice) (off : Z) (buffer : slice) (e : dns_entry) (r : rrs_out)
-           (strict : option (list ref_rr * list learned * nat)) : string :=
-  if Nat.ltb (len p) 12 then "-"
-  else if is_panic_r (fst r) then "rr-header-past-cap"
-  else if match strict with Some (rrs, _, _) => ptr_not_v4 rrs | None => false end then "ptr-owner-not-ipv4"
-  else if known_cname_alias p off buffer e then "cname-owner-aliased"
-  else "-".
-
 Definition run_rrs (p spare : bytes) (off : Z) (pre : bytes) (n : nat) : string :=
   let ps := mk_slice p spare in
   let buffer := mk_buffer pre n in
@@ -177,7 +143,7 @@ Definition run_rrs (p spare : bytes) (off : Z) (pre : bytes) (n : nat) : string 
              let '(c, u) := learn_all cache_empty false ls in
              sp ("ok:" ++ dec_of_nat e ++ ":" ++ show_bool u) (show_cache c)
          end in
-  out3 mobs spec (rrs_key ps off buffer e0 r strict).
+  out3 mobs spec "-".
 
 (* ---- pdns: ProcessDNS history on one handler ---- *)
 Definition show_ret (r : res (option dns_entry)) : string :=
@@ -210,16 +176,6 @@ Fixpoint cput (k : bytes) (c : cache) (t : list named) : list named :=
 Definition show_ref_msg (x : option ref_msg) : string :=
   match x with None => "none" | Some m => tok_of_bytes (rm_qname m) ++ ">" ++ show_learned (rm_learned m) end.
 
-Definition msg_ptr_not_v4 (p : bytes) : bool :=
-  match u16_at p 6, ref_question_at NAME_LIMIT p 12 with
-  | Some an, Some (_, off) =>
-      match ref_rrs NAME_LIMIT (N.to_nat an) p off with
-      | Some (rrs, _) => ptr_not_v4 rrs
-      | None => false
-      end
-  | _, _ => false
-  end.
-
 (* one step: model, spec expectation (given the spec table), key *)
 Definition pdns_step (t : dns_table) (st : list named) (p spare : bytes)
   : dns_table * list named * string * string * string :=
@@ -239,14 +195,7 @@ Definition pdns_step (t : dns_table) (st : list named) (p spare : bytes)
              if u then ("upd:" ++ tok_of_bytes (rm_qname m) ++ ">" ++ show_cache c1, cput (rm_qname m) c1 st)
              else ("none", st)
          end in
-  let key :=
-    if String.eqb mobs sobs then "-"
-    else if is_panic_r r then
-      (if known_dq_past_len ps 12 (mkSlice (repeat 0 64) 0) then "dq-past-len" else "rr-header-past-cap")
-    else if known_dq_past_len ps 12 (mkSlice (repeat 0 64) 0) then "dq-past-len"
-    else if msg_ptr_not_v4 p then "ptr-owner-not-ipv4"
-    else if negb (String.eqb mobs (show_ret (fst (processDNS_buf (mkSlice [] 0) t ps)))) then "cname-owner-aliased"
-    else "-" in
+  let key := "-" in
   (* after a step on which spec and implementation differ the spec table follows the model *)
   let st'' := if String.eqb mobs sobs then st' else ctable_of t' in
   (t', st'', mobs, sobs, key).
@@ -282,10 +231,7 @@ Definition run_nbns (b : bytes) : string :=
   let r := nbns_answer_name (of_bytes b) in
   let mobs := show_res show_nbns r in
   let sobs := show_nbns (node_status_name b) in
-  let key := if String.eqb mobs sobs then "-"
-             else if is_panic_r r then "nbns-array-bound"
-             else if node_status_wf b then "nbns-first-name" else "-" in
-  out3 mobs sobs key.
+  out3 mobs sobs "-".
 
 (* ---- merge / upd ---- *)
 Definition comma : ascii := ","%char.
